@@ -6,18 +6,38 @@ import (
 	"os"
 	"runtime"
 	"runtime/debug"
+	"runtime/pprof"
+	"time"
 )
 
 var checks = map[string]func() int{}
 
 func main() {
 	debug.SetGCPercent(400)
+	// soft limit: checks that build many short-lived engines/routers keep garbage reachable through sync.Pool victim caches
+	// for two GC cycles; near the limit the collector runs as often as needed instead of letting the heap grow
+	debug.SetMemoryLimit(6 << 30)
 	if len(os.Args) < 2 {
 		fmt.Println("usage: vcheck <Cxx> | replay <file>")
 		os.Exit(3)
 	}
 	if os.Args[1] == "replay" {
 		os.Exit(replay(os.Args[2]))
+	}
+	if path := os.Getenv("VERIF_HEAPPROF"); path != "" {
+		go func() {
+			time.Sleep(15 * time.Second)
+			if fh, err := os.Create(path); err == nil {
+				runtime.GC()
+				_ = pprof.WriteHeapProfile(fh)
+				fmt.Fprintln(os.Stderr, "goroutines:", runtime.NumGoroutine())
+				if g, err := os.Create(path + ".goroutines"); err == nil {
+					_ = pprof.Lookup("goroutine").WriteTo(g, 1)
+					g.Close()
+				}
+				fh.Close()
+			}
+		}()
 	}
 	f, ok := checks[os.Args[1]]
 	if !ok {
